@@ -29,6 +29,8 @@ What is mirrored, quirk by quirk:
   non-NaN rows, crops taken from flat map `valid_idx[k]`, offsets scattered back with
   `refined[valid_idx] += offsets`, reshape to `(S,C,2)`.
 
+Half-precision maps are cropped in float32 since 327aafb (values unchanged: the model is dtype-agnostic; the
+pre-fix behaviour — kornia solving the box transform in the map's dtype — is finding F-C06half, fixed).
 `p = 1`: the model gives offset 0 (the formula's value); the code raises inside kornia (the
 perspective solve of a degenerate box is singular) — finding F-C06p1, replayed by the harness.
 -/
@@ -176,11 +178,15 @@ deriving DecidableEq
 def threshold (thr : R) (x y : Nat) (m : R) : GPeak R :=
   if m < thr then ⟨none, 0⟩ else ⟨some (x, y), m⟩
 
-/-- repaired `find_global_peaks_rough` on one map: first maximum of the row-major flattening -/
+/-- `(flat_inds % width, flat_inds // width)`: exact integer arithmetic, whatever the size of the map
+(the code does it on int64 indices and converts to float32 afterwards) -/
+def unravel (w k : Nat) : Nat × Nat := (k % w, k / w)
+
+/-- `find_global_peaks_rough` on one map (as it is since f45cc18): first maximum of the row-major flattening, unravelled -/
 def globalRough1 (thr : R) (h w : Nat) (img : Nat → Nat → R) : GPeak R :=
   let f : Nat → R := fun k => img (k / w) (k % w)
   let k := argmaxUpTo f (h * w - 1)
-  threshold thr (k % w) (k / w) (f k)
+  threshold thr (unravel w k).1 (unravel w k).2 (f k)
 
 /-- `find_global_peaks_rough` as it was before the repair f45cc18 (finding F-C07): two separate reductions -/
 def globalRoughAsIs1 (thr : R) (h w : Nat) (img : Nat → Nat → R) : GPeak R :=
